@@ -29,6 +29,7 @@ pub struct Solver {
     /// mirror of the assertion stack (declarations and assertions per frame) for one-shot fallback runs
     frames: Vec<Vec<String>>,
     pub fallback_ms: u64,
+    pub fallback_solvers: usize,
     pub fallbacks: u64,
     pub fallback_resolved: u64,
 }
@@ -62,7 +63,7 @@ impl Solver {
         let log = std::env::var("SYMX_SMT_LOG").ok().map(|p| {
             std::fs::OpenOptions::new().create(true).append(true).open(format!("{}.{}", p, name)).unwrap()
         });
-        let mut s = Solver { name: name.into(), child, stdin, stdout, queries: 0, sat: 0, unsat: 0, unknown: 0, time: Duration::ZERO, log, depth: 0, frames: vec![vec![]], fallback_ms: 8000, fallbacks: 0, fallback_resolved: 0 };
+        let mut s = Solver { name: name.into(), child, stdin, stdout, queries: 0, sat: 0, unsat: 0, unknown: 0, time: Duration::ZERO, log, depth: 0, frames: vec![vec![]], fallback_ms: 6000, fallback_solvers: 1, fallbacks: 0, fallback_resolved: 0 };
         s.send(prelude);
         s
     }
@@ -123,6 +124,7 @@ impl Solver {
             ("/usr/bin/z3", vec!["-in".into(), format!("-T:{}", secs)]),
         ];
         let mut result = (Answer::Unknown("fallback: no solver decided".into()), None);
+        let cmds: Vec<(&str, Vec<String>)> = cmds.into_iter().take(self.fallback_solvers).collect();
         for (bin, args) in cmds {
             let child = Command::new(bin).args(&args).stdin(Stdio::piped()).stdout(Stdio::piped()).stderr(Stdio::null()).spawn();
             let Ok(mut child) = child else { continue };
